@@ -238,6 +238,7 @@ var c24extra = []c24cmd{
 	{label: "hs-v0", command: "handshake", isHs: true, version: 0, body: func(i int) interface{} { return &c24handshakeReq{Version: 0} }},
 	{label: "hs-v-1", command: "handshake", isHs: true, version: -1, body: func(i int) interface{} { return &c24handshakeReq{Version: -1} }},
 	{label: "auth-empty", command: "auth", isAuth: true, key: "", body: func(i int) interface{} { return &c24authReq{AuthKey: ""} }},
+	{label: "auth-nokey", command: "auth", isAuth: true, key: "", raw: []byte{0x80}}, // body = empty map: no AuthKey field at all
 	{label: "auth-prefix", command: "auth", isAuth: true, key: "kk", body: func(i int) interface{} { return &c24authReq{AuthKey: "kk"} }},
 	{label: "stop", command: "stop", body: func(i int) interface{} { return &c24stopReq{Stop: 11} }},
 	{label: "use-key", command: "use-key", clock: "query", data: "NumNodes", body: func(i int) interface{} { return &c24keyReq{Key: c24keyFor(i)} }},
@@ -1191,13 +1192,14 @@ func c24vacuity(ctx *vc.Ctx) {
 func c24scenarios(ctx *vc.Ctx) []c24scenario {
 	keys := []string{"", c24authKey}
 	full := c24letters()
-	ext := c24letters("hs-v0", "hs-v-1", "auth-empty", "auth-prefix", "stop", "use-key", "remove-key", "force-leave-prune", "members-bad-regex", "malformed-auth", "malformed-hs")
+	ext := c24letters("hs-v0", "hs-v-1", "auth-empty", "auth-nokey", "auth-prefix", "stop", "use-key", "remove-key", "force-leave-prune", "members-bad-regex", "malformed-auth", "malformed-hs")
 	out := []c24scenario{
 		{name: "pipelined/len<=3", alpha: full, maxLen: 3, keys: keys},
 		{name: "stepwise/len<=2", alpha: full, maxLen: 2, keys: keys, stepwise: true},
 		{name: "stepwise/hs+len<=2", alpha: full, maxLen: 2, keys: keys, stepwise: true, prefix: []string{"hs"}},
 		{name: "second-connection/len<=2", alpha: full, maxLen: 2, keys: []string{c24authKey}, pre: []string{"hs", "auth-ok", "stream", "monitor"}},
 		{name: "pipelined/hs+len<=3", alpha: full, maxLen: 3, keys: keys, prefix: []string{"hs"}},
+		{name: "second-connection/auth-variants/hs+len<=3", alpha: c24pick("auth-nokey", "auth-empty", "auth-bad", "auth-prefix", "stats", "members", "event"), maxLen: 3, keys: []string{c24authKey}, prefix: []string{"hs"}, pre: []string{"hs", "auth-ok", "stream", "monitor"}},
 		{name: "pipelined/extended/len<=2", alpha: ext, maxLen: 2, keys: keys},
 		{name: "pipelined/extended/hs+len<=2", alpha: ext, maxLen: 2, keys: keys, prefix: []string{"hs"}},
 	}
@@ -1245,7 +1247,7 @@ func c24run(ctx *vc.Ctx) { c24runAll(ctx, "C24") }
 func c25SeqCorrelation(ctx *vc.Ctx) { c24runAll(ctx, "C25SEQ") }
 
 func init() {
-	rule := "cases: every request script of length 1..L over the command alphabet {handshake v1, handshake v2, auth right key, auth wrong key, event, tags, join, force-leave, members, members-filtered, stats, stream, monitor, query, respond, install-key, list-keys, get-coordinate, leave (last only), event with an undecodable body, unknown command} x authKey in {\"\",\"k\"}, each on a fresh real Agent+AgentIPC, delivered (a) pipelined: whole script in one write, (b) stepwise: one request per write with quiescence in between (quick: L-1, alone and after a handshake), (c) on a second connection while another connection is authenticated with open stream and monitor (L-1), (d) pipelined after a fixed successful handshake (L more requests); and over the extended alphabet (below) with L=2 alone and after a handshake; quick L=3; thorough adds L=4 pipelined over the full alphabet, L=4 stepwise over a 14-letter sub-alphabet and L=3 over the alphabet extended by handshake v0/v-1, auth \"\"/\"kk\", stop, use-key, remove-key, force-leave prune, members-filtered with a bad regex, undecodable auth/handshake bodies, (d) also stepwise and after handshake+right key. (auth-keys) configured keys of 1, 16, 63, 64, 65, 96 and 200 bytes and with NUL / non-UTF-8 bytes x every presented variant (the key, one bit changed at the first, middle, last position and around bytes 31-32 and 62-65, every truncation at those lengths, extensions, the empty key), each after a handshake and followed by stats, tags, members. "
+	rule := "cases: every request script of length 1..L over the command alphabet {handshake v1, handshake v2, auth right key, auth wrong key, event, tags, join, force-leave, members, members-filtered, stats, stream, monitor, query, respond, install-key, list-keys, get-coordinate, leave (last only), event with an undecodable body, unknown command} x authKey in {\"\",\"k\"}, each on a fresh real Agent+AgentIPC, delivered (a) pipelined: whole script in one write, (b) stepwise: one request per write with quiescence in between (quick: L-1, alone and after a handshake), (c) on a second connection while another connection is authenticated with open stream and monitor (L-1; also, after a handshake, L=3 over {auth body without a key field, auth \"\", auth wrong key, auth \"kk\", stats, members, event}), (d) pipelined after a fixed successful handshake (L more requests); and over the extended alphabet (below) with L=2 alone and after a handshake; quick L=3; thorough adds L=4 pipelined over the full alphabet, L=4 stepwise over a 14-letter sub-alphabet and L=3 over the alphabet extended by handshake v0/v-1, auth \"\"/\"kk\", stop, use-key, remove-key, force-leave prune, members-filtered with a bad regex, undecodable auth/handshake bodies, (d) also stepwise and after handshake+right key. (auth-keys) configured keys of 1, 16, 63, 64, 65, 96 and 200 bytes and with NUL / non-UTF-8 bytes x every presented variant (the key, one bit changed at the first, middle, last position and around bytes 31-32 and 62-65, every truncation at those lengths, extensions, the empty key), each after a handshake and followed by stats, tags, members. "
 	vc.Register(&vc.Check{
 		ID:    "C24",
 		Level: "exploration",
